@@ -4,10 +4,14 @@ Line-protocol driver for the calc-steps kernel (C16).
 
 * `plan <size> ; <ordered> ; <targets> ; <p>n edges>`
     → `<actions> ; pasted=<final pasted> ; topo=<0|1> ; nodup=<0|1>`
-* `gen <fuel> ; <n:p,p preds> ; <user inputs> ; <targets> ; -`
-    → `calculated=<executions while tracing> ; <held sorted>/<inputs sorted>` (state left behind)
+* `gen <fuel> ; <n:p,p preds> ; <user inputs> ; <targets> ; <pre>`
+    → `calculated=<executions while tracing> ; <held sorted>/<inputs sorted>` (state left behind);
+    the elements of `<pre>` are evaluated, in that order, before `generate_actions` is modelled
 * `exec <fuel> ; <n:p,p preds> ; <actions>`
     → after every action `<held sorted>/<inputs sorted>`, joined by `|`, then ` ; log=<executions>`
+* `execfrom <fuel> ; <n:p,p preds> ; <user inputs> ; <pre> ; <actions>`
+    → the same from the cache that holds the user inputs and the values of `<pre>` (evaluated first);
+    the log lists the executions of the actions only
 
 Actions are written `calc 0 1|paste 1 0|clear`.
 -/
@@ -70,20 +74,39 @@ def doExec (fuel : Nat) (preds : List (Nat × List Nat)) (acts : List Action) : 
   let r := acts.foldl step (({} : Cache), [])
   "|".intercalate r.2 ++ " ; log=" ++ showNodes r.1.log
 
-def doGen (fuel : Nat) (preds : List (Nat × List Nat)) (inputs targets : List Nat) : String :=
-  let c0 : Cache := { held := inputs, inputs := inputs }
+/-- the user inputs, then the direct evaluation of `pre` -/
+def startCache (fuel : Nat) (pf : Node → List Node) (inputs pre : List Nat) : Cache :=
+  pre.foldl (fun c n => evalNode pf fuel n c) { held := inputs, inputs := inputs }
+
+def doExecFrom (fuel : Nat) (preds : List (Nat × List Nat)) (inputs pre : List Nat) (acts : List Action) :
+    String :=
+  let pf : Node → List Node := predFn preds
+  let c0 := startCache fuel pf inputs pre
+  let step := fun (acc : Cache × List String) (a : Action) =>
+    let c := execAction pf fuel acc.1 a
+    (c, acc.2 ++ [showNodes (sortNat c.held) ++ "/" ++ showNodes (sortNat c.inputs)])
+  let r := acts.foldl step (c0, [])
+  "|".intercalate r.2 ++ " ; log=" ++ showNodes (r.1.log.drop c0.log.length)
+
+def doGen (fuel : Nat) (preds : List (Nat × List Nat)) (inputs targets pre : List Nat) : String :=
+  let c0 : Cache := startCache fuel (predFn preds) inputs pre
   let c := generateLeaves (predFn preds) fuel targets c0
   "calculated=" ++ showNodes (calculated (predFn preds) fuel targets c0) ++ " ; "
     ++ showNodes (sortNat c.held) ++ "/" ++ showNodes (sortNat c.inputs)
 
 def step (line : String) : String :=
   match line.splitOn " ; " with
-  | [h, p, i, t, _] =>
+  | [h, p, i, t, x] =>
     match (h.splitOn " ").filter (· ≠ "") with
     | ["gen", f] =>
-      match f.toNat?, (toks p).mapM parsePreds, nats i, nats t with
-      | some f, some p, some i, some t => doGen f p i t
-      | _, _, _, _ => "bad-op"
+      match f.toNat?, (toks p).mapM parsePreds, nats i, nats t, nats x with
+      | some f, some p, some i, some t, some x => doGen f p i t x
+      | _, _, _, _, _ => "bad-op"
+    | ["execfrom", f] =>
+      match f.toNat?, (toks p).mapM parsePreds, nats i, nats t,
+          ((x.splitOn "|").filter (fun t => t ≠ "" ∧ t ≠ "-")).mapM parseAction with
+      | some f, some p, some i, some t, some a => doExecFrom f p i t a
+      | _, _, _, _, _ => "bad-op"
     | _ => "bad-op"
   | [h, o, t, e] =>
     match (h.splitOn " ").filter (· ≠ "") with
